@@ -716,7 +716,20 @@ func main() {
 	}
 	w("\n].\n\n")
 	w("Definition gen_default_versions_found : bool := %v.\n", defaultVersionsFound)
-	w("Definition gen_default_versions : list (string * string) := [%s].\n\n", joinMap2(defaultVersions, "; "))
+	{
+		var o []string
+		for _, x := range defaultVersions {
+			a, b := x[0], x[1]
+			if a == "?" {
+				a = "-1"
+			}
+			if b == "?" {
+				b = "-1"
+			}
+			o = append(o, "(("+a+")%Z, ("+b+")%Z)")
+		}
+		w("Definition gen_default_versions : list (Z * Z) := [%s].\n\n", strings.Join(o, "; "))
+	}
 	for _, fn := range []string{"DefaultServerTLSConfig", "DefaultClientTLSConfig"} {
 		as, ok := tlsAssign[fn]
 		w("Definition gen_%s_found : bool := %v.\n", fn, ok)
